@@ -219,10 +219,14 @@ def check_divmod(case):
 
 # ---------------------------------------------------------------- integers beyond the double-exact range: exact integer arithmetic
 
+POWERS = {3 ** 40: '3^40', 7 ** 22: '7^22', 2 ** 64: '2^64', 5 ** 27: '5^27', 3 ** 34: '3^34', 11 ** 17: '11^17', 10 ** 18: '10^18'}      # integer^integer is a numeric literal that spells an exact integer
+
+
 @st.composite
 def bigint_case(draw):
     x = draw(st.one_of(st.integers(2 ** 52, 2 ** 70), st.integers(-2 ** 70, -2 ** 52),
-                       st.sampled_from([2 ** 53 + 1, 2 ** 52 + 1, -(2 ** 53) - 1, 10 ** 17 + 1, 3 ** 40, 12345678901234567890, 4503599627370497, 10 ** 20 - 1, -(10 ** 18) - 5])))
+                       st.sampled_from([2 ** 53 + 1, 2 ** 52 + 1, -(2 ** 53) - 1, 10 ** 17 + 1, 3 ** 40, 12345678901234567890, 4503599627370497, 10 ** 20 - 1, -(10 ** 18) - 5]),
+                       st.sampled_from(sorted(POWERS))))
     return {'x': x, 'd': draw(st.integers(-6, 6)), 's': draw(st.sampled_from([1, 2, 3, 5, 7, 10, 1000, -1, -2, -7, 10 ** 6 + 1])),
             'b': draw(st.one_of(st.sampled_from([1, 2, -2, 3, 10, -10, 7, 2 ** 40 + 1]), st.integers(-10 ** 6, 10 ** 6).filter(lambda v: v != 0))), 'var': draw(st.booleans())}
 
@@ -231,6 +235,8 @@ def check_bigint(case):
     x, d, s, b = case['x'], case['d'], case['s'], case['b']
     env = Env(vars={'v_x': x, 'v_s': s, 'v_b': b})
     X, S, B = ('v_x', 'v_s', 'v_b') if case['var'] else (num_lit(x), num_lit(s), num_lit(b))
+    if x in POWERS and not case['var']:
+        X = POWERS[x]
     Dg = str(d) if d >= 0 else '-%d' % -d
     ax, sg = abs(x), (1 if x > 0 else -1)
     u = 10 ** max(-d, 0)
